@@ -99,7 +99,8 @@ class SimFS:
             data = self.files[path]
             if binary:
                 return io.BytesIO(data)
-            return io.StringIO(data.decode(encoding or "utf-8"), newline=newline)
+            enc = "utf-8" if encoding in (None, "locale") else encoding
+            return io.StringIO(data.decode(enc, errors or "strict"), newline=newline)
         if "w" in mode or "x" in mode:
             if "x" in mode and path in self.files:
                 raise FileExistsError(errno.EEXIST, "File exists", path)
